@@ -21,14 +21,12 @@ func zzBuyStorage(mode string) {
 	zzRatioFixed = map[string]int64{"param.ReferralCommission": 25, "param.PolRatio": 40}
 	if zzverif.Thorough() {
 		zzRatioFixed = nil
-		zzRatioGrid = []int64{0, 10, 25, 40, 60}
+		zzRatioGrid = []int64{25, 40}
 	}
 	e := zzSetup()
-	if !zzverif.Thorough() {
-		// quick: no gauge record yet under the id this purchase derives (merging a deposit into an existing
-		// gauge is C12's subject and multiplies the paths eightfold)
-		zzverif.AssumeNoKeysWithPrefix("storage", types.PaymentGaugeKeyPrefix)
-	}
+	// no gauge record yet under the id this purchase derives (merging a deposit into an existing gauge is
+	// C12's subject and multiplies the paths eightfold)
+	zzverif.AssumeNoKeysWithPrefix("storage", types.PaymentGaugeKeyPrefix)
 	switch mode {
 	case "fresh": // no plan yet; recipient and referral given as addresses (no name resolution)
 		zzverif.AssumeNoKeysWithPrefix("storage", types.StoragePaymentInfoKeyPrefix)
